@@ -318,6 +318,54 @@ def poolStepG (s : DState) (pg : PoolG) (ti : Int) (p : People) (r : Nat → Rat
 def PoolG.remove (pg : PoolG) (dead : List Nat) : PoolG :=
   { pg with src := pg.src.remove dead, dst := pg.dst.remove dead }
 
+/-! ### The plural container `MixingPools` (round 5)
+
+`MixingPools` builds one `MixingPool` per (source group, destination group) pair and hands each its own reference to the
+group parameter.  When agents are removed, `MixingPools.remove_uids` must reach every one of them
+(`Gen.poolsRemoveForwards`); `MixingPools.step` steps every one (`Gen.poolsStepForwards`). -/
+
+/-- `MixingPools.remove_uids`: the removal applied to every sub-pool -/
+def poolsRemove (pools : List PoolG) (dead : List Nat) : List PoolG :=
+  pools.map (fun pg => pg.remove dead)
+
+/-- `MixingPools.step` for one disease with a fixed pre-step state (the sub-pools of one step in order; the state changes
+    between sub-pools only through `set_prognoses`, which never makes anybody susceptible): updated pools and the cases of each -/
+def poolsStep (s : DState) (ti : Int) (p : People) (r : Nat → Rat) : List PoolG → List PoolG × List (List Nat)
+  | [] => ([], [])
+  | pg :: rest =>
+    let a := poolStepG s pg ti p r
+    let b := poolsStep s ti p r rest
+    (a.1 :: b.1, a.2 :: b.2)
+
+/-! ### The transmissibility in force: `TimePar.set` and the scaling operators (round 5)
+
+A disease / pool `beta` given as a plain number, `pars.update(beta=x)`, `beta.set(x)`, `beta *= f`, `beta /= g` and
+`beta * f` all end in `TimePar.set(v=…)`.  Whether a supplied value is stored is the regenerated test
+`Gen.timeparSetStores (is None) (is zero)`. -/
+
+/-- `TimePar.set(v=new)` on the base value; `none` = argument not supplied -/
+def setBase (old : Rat) (new : Option Rat) : Rat :=
+  match new with
+  | none => old
+  | some x => if Gen.timeparSetStores false (decide (x = 0)) then x else old
+
+/-- `beta *= f` / `beta * f`: `self.set(v=self.v * other)` -/
+def scaleBase (old f : Rat) : Rat := setBase old (some (old * f))
+
+/-- a sequence of user actions on one beta: `some x` = set to x, `none`-free scaling is `scale f` -/
+inductive BetaOp where
+  | set (x : Rat)
+  | scale (f : Rat)
+
+def BetaOp.apply (v : Rat) : BetaOp → Rat
+  | .set x => setBase v (some x)
+  | .scale f => scaleBase v f
+
+/-- what the user's actions DENOTE, independently of the code -/
+def BetaOp.denote (v : Rat) : BetaOp → Rat
+  | .set x => x
+  | .scale f => v * f
+
 /-! ### `SexualNetwork.net_beta` for arbitrary `acts·dt` (IEEE doubles, same source expression) -/
 
 /-- the source expression of `SexualNetwork.net_beta`, evaluated in doubles with `Float.pow` -/
